@@ -72,10 +72,10 @@ class MonClient(C.DBusClientConnection):
 
 
 class ClientSession:
-    def __init__(self, unix):
+    def __init__(self, unix, proto_cls=None):
         self.f = C.DBusClientFactory()
         self.f.getConnection().addErrback(lambda e: None)
-        self.p = MonClient()
+        self.p = (proto_cls or MonClient)()
         self.p.factory = self.f
         self.ep = simnet.Endpoint(self.p, unix=unix, name='client').connect()
         self.consumed = 0
@@ -455,6 +455,40 @@ def classify_incomplete(w):
     return None
 
 
+def custom_preferences(ctx):
+    """The mechanisms offered, and their order, are the configured preference list (the documented `preference`
+    attribute of the authenticator class) - also when an application narrows or reorders it."""
+    from txdbus import authentication as A
+    prefs = [[b'ANONYMOUS'], [b'ANONYMOUS', b'EXTERNAL'], [b'DBUS_COOKIE_SHA1', b'ANONYMOUS'], [b'EXTERNAL'],
+             [b'ANONYMOUS', b'DBUS_COOKIE_SHA1', b'EXTERNAL']]
+    for pref in prefs:
+        for how in ('subclass', 'instance-of-subclass-edited'):
+            if how == 'subclass':
+                auth_cls = type('NarrowAuth', (A.ClientAuthenticator,), {'preference': list(pref)})
+            else:
+                auth_cls = type('NarrowAuth2', (A.ClientAuthenticator,), {})
+                auth_cls.preference = list(pref)
+            proto_cls = type('NarrowClient', (MonClient,), {'authenticator': auth_cls})
+            for unix in (False, True):
+                s = ClientSession(unix, proto_cls=proto_cls)
+                offered = [mech_of(l) for l in s.collect() if mech_of(l)]
+                for _ in range(6):
+                    if s.closed:
+                        break
+                    s.ep.feed(b'REJECTED EXTERNAL DBUS_COOKIE_SHA1 ANONYMOUS\r\n')
+                    offered += [mech_of(l) for l in s.collect() if mech_of(l)]
+                ctx.count('evaluations')
+                ctx.count('custom_preference_runs')
+                if offered != pref or not s.closed:
+                    ctx.report('mechanism-order', 'authenticator with preference %r (%s): offered %r, closed=%s' % (
+                        pref, how, offered, s.closed), {'preference': [p_.decode() for p_ in pref], 'how': how,
+                                                        'offered': [o.decode() for o in offered], 'unix': unix},
+                        {'kind': 'custom-preference'})
+                    s.finish()
+                    return
+                s.finish()
+
+
 def floods(ctx):
     """More than 16 KiB of handshake data that never forms a line is outside the protocol: the client closes when the
     limit is crossed - also when the read that crosses it is the last thing the server ever sends."""
@@ -576,6 +610,7 @@ def run(ctx):
                                                split_rng=random.Random(str(case)))
             rotated_cookie(ctx, env)
             floods(ctx)
+            custom_preferences(ctx)
         ctx.sample({'server_lines': [LINE[s].decode() for s in ('REJECTED', 'DATA_cookie', 'OK_guid', 'AGREE_UNIX_FD')],
                     'transport': 'UNIX'})
     ctx.require(ctx.counters.get('begins', 0) > 10, 'no BEGIN observed')
@@ -586,6 +621,9 @@ def replay(ctx, rp):
     case = rp['case']
     with authenv.AuthEnv() as env:
         env.write_cookie(COOKIE_CTX.decode(), COOKIE_ID, COOKIE)
+        if case.get('kind') == 'custom-preference':
+            custom_preferences(ctx)
+            return
         if case.get('kind') == 'flood':
             floods(ctx)
             return
